@@ -273,14 +273,17 @@ class DynamicObject:
             float: The heading (radian)
         """
         if self.frame_id == FrameID.BASE_LINK:
-            rots, _, _ = self.state.orientation.yaw_pitch_roll
+            rotation = self.state.orientation
         else:
             if transforms is None:
                 raise ValueError("transforms must be specified.")
             _, rotation = transforms.transform(
                 (self.frame_id, FrameID.BASE_LINK), self.state.position, self.state.orientation
             )
-            rots, _, _ = rotation.yaw_pitch_roll
+        # NOTE: direction of the box's x-axis on the ground plane (as nuscenes' quaternion_yaw); unlike the yaw of
+        # `yaw_pitch_roll` it turns by exactly the ego yaw when a box that is not level changes between map and base_link
+        direction = rotation.rotate((1.0, 0.0, 0.0))
+        rots = math.atan2(direction[1], direction[0])
 
         trans_rots: float = -rots - math.pi / 2
         trans_rots = float(np.where(trans_rots > math.pi, trans_rots - 2 * math.pi, trans_rots))
